@@ -80,6 +80,7 @@ def run(ctx):
 
 
 def _run(ctx, base):
+    seen = set()
     for idx, rng in ctx.cases():
         local = {}
 
@@ -90,7 +91,10 @@ def _run(ctx, base):
         w = run_case(rng, ctx.tier, count, base=base)
         desc = _scenario.describe(w.scn)
         ctx.count('interleavings')
-        ctx.count('shape:' + w.scn['shape'])
+        if w.trace_hash() not in seen:
+            seen.add(w.trace_hash())
+            ctx.count('distinct_choice_sequences')
+            ctx.count('distinct_sequences:' + w.scn['shape'])
         ctx.count('zk_operations', w.sched.ops)
         nontrivial = bool(
             local.get('create_met_foreign_owner') or local.get('create_met_own_node')
@@ -100,6 +104,6 @@ def _run(ctx, base):
             ctx.violation(
                 mech, msg,
                 witness=dict(detail=witness, at_choice=at, history_tail=w.oracle.tail(30)),
-                case=dict(scenario=w.scn, ops=w.trace))
+                case=dict(scenario=w.scn, policy=w.policy, ops=w.trace[:at], choices_in_case=len(w.trace)))
         ctx.done(case_desc=dict(scn=desc, interleaving=w.trace_hash()), nontrivial=nontrivial,
                  sample=dict(scenario=desc, choices=w.trace) if idx < 2 else None)
